@@ -54,6 +54,7 @@ pub open spec fn next_rel<C: ContentAddrStore>(s: UnsealedState<C>, n: UnsealedS
     &&& n.coins@.coins == s.coins@.coins
     &&& (spec_tip906(n) == spec_tip906(s) ==> n.coins@ == s.coins@)
 }
+//@LEMMA C07 lemma_chain_next opening the next block preserves the header chain invariant
 pub proof fn lemma_chain_next<C: ContentAddrStore>(s: UnsealedState<C>, n: UnsealedState<C>)
     requires chain_ok(s), next_rel(s, n)
     ensures chain_ok(n)
